@@ -376,6 +376,29 @@ def check_markdown(rng):
     return out
 
 
+def check_regeneration():
+    """every page of a site regenerated into the same directory shows the numbers of the CURRENT sources (scaled), exactly as a generation
+    into a fresh directory does - also when an edit leaves the length of the source, and of some pages, unchanged"""
+    import shutil
+    from .. import gen_site
+    out = []
+    scratch, same, fresh, src = gen_site.regenerate_same_directory(M=8)
+    try:
+        for f in gen_site.output_files(fresh):
+            if not f.endswith(".html"):
+                continue
+            a, b = (same / f[1:]), (fresh / f[1:])
+            if not a.exists():
+                out.append(("C03:page-shows-values-of-an-earlier-source-after-regeneration", "%s is missing after regeneration" % f))
+                continue
+            va, vb = svalues(a.read_text(), True) + svalues(a.read_text(), False), svalues(b.read_text(), True) + svalues(b.read_text(), False)
+            if va != vb:
+                out.append(("C03:page-shows-values-of-an-earlier-source-after-regeneration", "%s shows %r, the current source scaled gives %r" % (f, va[:6], vb[:6])))
+        return out[:3]
+    finally:
+        shutil.rmtree(scratch, ignore_errors=True)
+
+
 def gen_cases(run, n):
     cases = []
     for _ in range(n):
@@ -413,6 +436,9 @@ def oracle(run):
         run.case(("commute", repr(d), repr(k)), True, kind="compile-scale-commute")
         for sig, detail in check_commute(d, k):
             run.violate(sig, detail, {"desc": repr(d), "k": repr(k)})
+    run.case(("regeneration",), True, kind="regeneration-into-same-directory")
+    for sig, detail in check_regeneration():
+        run.violate(sig, detail, {"regeneration": True})
     # a long document: every one of its (more than thirty) scaled values is multiplied, at every scale
     from . import c13
     run.case(("markdown-many",), True, kind="markdown-many-values")
@@ -427,6 +453,11 @@ def oracle(run):
 
 
 def replay(run, obj):
+    if obj["replay"].get("regeneration"):
+        res = check_regeneration()
+        for x in res:
+            print(*x)
+        return bool(res)
     from .c02 import tree_of_sexp
     r = obj["replay"]
     if r.get("markdown_many"):
